@@ -11,13 +11,13 @@ import (
 	"verif/mon"
 )
 
-var otrFragSizes = []int{0, 0, 17, 19, 20, 21, 25, 40, 60, 100, 256, 1000, 100000}
+var otrFragSizes = []int{0, 0, 17, 18, 19, 20, 21, 25, 40, 60, 100, 256, 1000, 100000}
 
 // C47: OTR conversations deliver messages and authenticate secrets.
 func TestC47(t *testing.T) {
 	m := mon.New(t, "C47")
 	defer m.Done()
-	m.Rule("streams: 'conv' = PRNG-scripted conversation of two otr.Conversation objects over a harness bus (start ∈ {query to A, query to B, simultaneous, embedded query}; FragmentSize per side ∈ {0,17,19,20,21,25,40,60,100,256,1000,100000}; ops: send (content classes empty/short/random/padding-boundary/whitespace-tag/query-like/utf8/large), duplicate data message (now or delayed), drop data message, drop/duplicate one fragment, mutate-then-original, SMP with equal/unequal secrets with/without question in both directions, re-handshake, End + restart) judged by the model {both encrypted after AKE with equal SSID and the peer's real key; every Send(m) is received as exactly m once; duplicates and mutants deliver nothing; SMPComplete on both sides iff secrets equal else SMPFailed on both}; 'data-mutation' = every byte of every encoded data-message class (text, with revealed MAC keys, SMP1..4, disconnect) mutated before base64 and every character of the base64 text (rejection judged per wire region; the unauthenticated revealed-MAC-keys field may be accepted but then the plaintext must be unchanged) followed by the original (must still be accepted); 'ake-mutation' = byte mutations of DH-commit/DH-key/reveal-sig/sig messages (panic-freedom; authentication consistency counted); 'smp-chaos' = SMP restarts/crossings/aborts (panic-freedom; never SMPComplete on unequal secrets); 'hostile' = grammar-generated inputs (well-framed OTR messages with hostile fields, fragments with k>n / n=0 / huge indices, query variants, random ?OTR:/?OTR, strings) against conversations in every state (no panic, no encrypted plaintext accepted); 'nul' = messages with an embedded NUL; 'frag18' = FragmentSize 18. distinct key = stream|op|content class|fragment sizes|outcome")
+	m.Rule("streams: 'conv' = PRNG-scripted conversation of two otr.Conversation objects over a harness bus (start ∈ {query to A, query to B, simultaneous, embedded query}; FragmentSize per side ∈ {0,17,18,19,20,21,25,40,60,100,256,1000,100000} (≤ 18 = fragmentation off); ops: send (content classes empty/short/random/padding-boundary/whitespace-tag/query-like/utf8/large), duplicate data message (now or delayed), drop data message, drop/duplicate one fragment, mutate-then-original, SMP with equal/unequal secrets with/without question in both directions, re-handshake, End + restart) judged by the model {both encrypted after AKE with equal SSID and the peer's real key; every Send(m) is received as exactly m once; duplicates and mutants deliver nothing; SMPComplete on both sides iff secrets equal else SMPFailed on both}; 'data-mutation' = every byte of every encoded data-message class (text, with revealed MAC keys, SMP1..4, disconnect) mutated before base64 and every character of the base64 text (rejection judged per wire region; the unauthenticated revealed-MAC-keys field may be accepted but then the plaintext must be unchanged) followed by the original (must still be accepted); 'ake-mutation' = byte mutations of DH-commit/DH-key/reveal-sig/sig messages (panic-freedom; authentication consistency counted); 'smp-chaos' = SMP restarts/crossings/aborts (panic-freedom; never SMPComplete on unequal secrets); 'hostile' = grammar-generated inputs (well-framed OTR messages with hostile fields, fragments with k>n / n=0 / huge indices, query variants, random ?OTR:/?OTR, strings) against conversations in every state (no panic, no encrypted plaintext accepted); 'nul' = messages with an embedded NUL; 'frag18' = FragmentSize 18 (the documented minimum: every API call that encodes a message must work, unfragmented). distinct key = stream|op|content class|fragment sizes|outcome")
 	m.Assume("no second OTR implementation in the image: only self-interoperation is observed; DSA keys are fixed embedded 1024-bit test keys; Conversation.Rand is a seeded PRNG (dsa.Sign may consume one byte more or less, so replays reproduce the script, not the exact wire bytes)")
 	loadOTRKeys()
 
@@ -168,7 +168,7 @@ func nothingDelivered(res []rcv) (ok bool, why string) {
 
 func fsClass(fs int) string {
 	switch {
-	case fs < 18:
+	case fs <= 18:
 		return "off"
 	case fs <= 21:
 		return fmt.Sprint(fs)
@@ -182,7 +182,7 @@ func c47Conversation(m *mon.M, idx int64, r *rand.Rand) {
 	fa, fb := mon.Pick(r, otrFragSizes), mon.Pick(r, otrFragSizes)
 	ka, kb := r.IntN(len(otrKeyHex)), r.IntN(len(otrKeyHex))
 	b := newBus(m, r, ka, kb, fa, fb)
-	small := (fa >= 18 && fa <= 25) || (fb >= 18 && fb <= 25)
+	small := (fa > 18 && fa <= 25) || (fb > 18 && fb <= 25)
 	mode := mon.Pick(r, []string{"query-to-b", "query-to-a", "simultaneous", "embedded", "query-to-b"})
 	viol := func(key string, extra map[string]any) {
 		m.Violation(key, b.witness(extra))
